@@ -12,6 +12,12 @@ EVERY combination of measurement outcomes the verified tableau semantics leaves 
 means (signed-group canonicaliser / dense matrices); (iv) `validate()`d, and the reported score must be 0.  Targets: all labelled
 graphs on <= 4 (quick) / <= 5 (thorough) vertices without isolated vertices, given as graph, stabilizer and density-matrix
 QuantumState, plus random graphs (connected and not, random vertex orders).
+(v) STABILIZER TARGETS THAT ARE NOT GRAPH STATES (`check_stab_target`): the real solver is given a CliffordTableau — a graph state under random
+local Cliffords with random signs (no product qubit: C02.solver_complete_stabilizer says the model returns), or a random Clifford state (often
+with a product qubit: mostly the general form of D3, C02.isolated_vertex_raises / Solver.solve_isolated_raises_stabilizer) — and compared exactly with
+the model on the same rows (operations per wire; on a raise: the error class); the returned circuit must prepare target ⊗ |0..0> on the real
+stabilizer backend (forced 0 / 1) and under the verified tableau semantics (`circ.stab`, several outcome scripts), both compared through the
+independent signed-group canonicaliser.  These targets reach the absorption branches with photon Pauli Y / Z that graph targets never take.
 """
 import itertools
 
@@ -36,7 +42,10 @@ TRUSTED_BASE = [
     "harness: translation of the implementation's op sequence into the validator's input (tokens_of), numpy dense reference (n_quantum <= 8)",
 ]
 ASSUMPTIONS = ["targets with an isolated vertex are the known finding D3 (solver raises IndexError) and are evaluated only for that finding; "
-               "they (and the empty graph, ValueError) are exactly the targets excluded by the hypotheses of C02.solver_complete"]
+               "they (and the empty graph, ValueError) are exactly the targets excluded by the hypotheses of C02.solver_complete",
+               "stabilizer targets with a product qubit (a group element supported on one qubit) are outside C02.solver_complete_stabilizer; most of them "
+               "are the same finding in its general form (IndexError), a few (product qubit = first photon) are solved correctly: the implementation must "
+               "behave exactly as the model (same error class, or the same circuit, which is then validated like every other)"]
 
 KEY_D3 = "solve:target-has-isolated-vertex:raises"
 
@@ -181,6 +190,145 @@ def check_graph(ctx, res, drv, adj, rep, backend, SC, DC, pending, order=None, l
     pending.append((f"solver.trs n={n} x={tu.bits(np.eye(n, dtype=int))} z={tu.bits(adj)} r={'0' * n}", dict(inp, _kind="model", _toks=toks)))
 
 
+# ------------------------------------------------------------------------------------------------ stabilizer targets that are not graph states
+def _expected_canon(x, z, r, ne):
+    """independent canonical form of the signed group of (target rows) ⊗ |0…0> on the emitters"""
+    n = x.shape[0]
+    m = n + ne
+    X = np.zeros((m, m), dtype=int)
+    Z = np.zeros((m, m), dtype=int)
+    R = np.zeros(m, dtype=int)
+    X[:n, :n], Z[:n, :n], R[:n] = x, z, r
+    for e in range(n, m):
+        Z[e, e] = 1
+    return tu.span_canon(X, Z, R)
+
+
+def _product_qubits(x, z):
+    """qubits carrying a group element supported on that qubit alone (GF(2) rank of the generators with the qubit's two columns removed)"""
+    n = x.shape[0]
+    out = []
+    for q in range(n):
+        keep = [j for j in range(n) if j != q]
+        m = np.concatenate([x[:, keep], z[:, keep]], axis=1).astype(int) % 2
+        rk, rows = 0, m.copy()
+        for c in range(rows.shape[1]):
+            piv = next((i for i in range(rk, n) if rows[i, c]), None)
+            if piv is None:
+                continue
+            rows[[rk, piv]] = rows[[piv, rk]]
+            for i in range(n):
+                if i != rk and rows[i, c]:
+                    rows[i] ^= rows[rk]
+            rk += 1
+        if rk < n:
+            out.append(q)
+    return out
+
+
+def _stab_target(rng, quick):
+    """a stabilizer target that is NOT handed over as a graph: a graph state without isolated vertex under random local Cliffords and
+    random signs (no product qubit, C02.solver_complete_stabilizer applies), or a random Clifford circuit on |0…0> (may contain product qubits)"""
+    import networkx as nx
+    from graphiq.backends.stabilizer.functions import transformation as tr
+
+    if rng.random() < 0.75:
+        while True:
+            n = rng.randrange(2, 7 if quick else 9)
+            g = nx.gnp_random_graph(n, rng.uniform(0.3, 0.9), seed=rng.getrandbits(30))
+            adj = nx.to_numpy_array(g).astype(int)
+            if not (adj.sum(axis=0) == 0).any():
+                break
+        p = rng.sample(range(n), n)
+        adj = adj[np.ix_(p, p)]
+        st = target_state(adj, "s")
+        t = st.rep_data.data
+        for q in range(n):
+            for _ in range(rng.randrange(0, 4)):
+                k = rng.randrange(5)
+                t = (tr.hadamard_gate, tr.phase_gate, tr.phase_dagger_gate, tr.x_gate, tr.z_gate)[k](t, q)
+        kind = "lc-graph"
+    else:
+        n = rng.randrange(2, 6 if quick else 8)
+        t = tu.random_tableau(rng, n, depth=rng.randrange(2 * n, 6 * n), signs=False)
+        kind = "random-clifford"
+    return kind, t
+
+
+def check_stab_target(ctx, res, drv, SC, pending, given=None):
+    """the real solver on a stabilizer target given as a tableau; the returned circuit must prepare target ⊗ |0…0> (real stabilizer backend, and the
+    verified tableau semantics via `circ.stab`, both compared through the independent canonicaliser); exact comparison with the solver model"""
+    from graphiq.metrics import Infidelity
+    from graphiq.solvers.time_reversed_solver import TimeReversedSolver
+    from graphiq.state import QuantumState
+
+    kind, t = given if given is not None else _stab_target(ctx.rng, ctx.quick)
+    n = t.n_qubits
+    stab = t.to_stabilizer()
+    x = np.asarray(stab.x_matrix).astype(int) % 2
+    z = np.asarray(stab.z_matrix).astype(int) % 2
+    r = np.asarray(stab.phase).astype(int) % 2
+    prod = _product_qubits(x, z)
+    inp = {"n": n, "x": tu.bits(x), "z": tu.bits(z), "r": tu.bits(r), "target_rep": "tableau:" + kind, "backend": "stab", "product_qubits": prod,
+           "tab": {"table": tu.bits(np.asarray(t.table).astype(int) % 2), "phase": tu.bits(np.asarray(t.phase).astype(int) % 2),
+                   "iphase": tu.bits(np.asarray(t.iphase).astype(int) % 2)}}
+    res.evaluations += 1
+    res.count("branches", "stab-target:" + kind + (":product-qubit" if prod else ""))
+    model_cmd = f"solver.trs n={n} x={tu.bits(x)} z={tu.bits(z)} r={tu.bits(r)}"
+    try:
+        target = QuantumState(t, rep_type="s")
+        comp = SC()
+        comp.measurement_determinism = 1
+        solver = TimeReversedSolver(target=target, metric=Infidelity(target), compiler=comp)
+        solver.solve()
+        score, circuit = solver.result
+    except Exception as e:  # noqa: BLE001
+        if prod:
+            # D3 in its general form (C02.solve_isolated_raises_stabilizer): a product qubit; the model must fail with the same class
+            res.count("errors", "D3-stab:" + err_class(e))
+            pending.append((model_cmd, dict(inp, _kind="model-raises", _cls=err_class(e))))
+        else:
+            res.violation(f"solve:stab-target:raises:{err_class(e)}", f"TimeReversedSolver raised {err_class(e)} on a stabilizer target without product qubit: {str(e)[:120]}", input=inp)
+        return
+    if prod:
+        # not a violation (the circuit is validated like any other), but it would refute the conjectured characterisation "returns iff no product qubit"
+        res.count("branches", "stab-target:product-qubit:returned")
+    if abs(float(score)) > 1e-9:
+        res.violation("solve:score-not-zero", f"reported score {score} is not 0 (stabilizer target)", input=inp)
+    try:
+        circuit.validate()
+    except Exception as e:  # noqa: BLE001
+        res.violation("solve:invalid-circuit", f"returned circuit does not validate: {err_class(e)}", input=inp)
+        return
+    ne, np_, nc = circuit.n_emitters, circuit.n_photons, circuit.n_classical
+    if np_ != n:
+        res.violation("solve:wrong-photon-count", f"circuit has {np_} photons for {n} qubits", input=inp)
+        return
+    toks, _ = tokens_of(circuit)
+    inp["ops"] = ",".join(toks)
+    inp["ne"] = ne
+    want = _expected_canon(x, z, r, ne)
+    if want is None:
+        return
+    for det in (0, 1):
+        comp = SC()
+        comp.measurement_determinism = det
+        try:
+            data = comp.compile(circuit).rep_data.data
+        except Exception as e:  # noqa: BLE001
+            res.violation("solve:circuit-does-not-compile:stab", f"stab backend raised {err_class(e)} on the returned circuit", input=inp)
+            continue
+        if not (tu.is_valid(data) and tu.stab_canon(data) == want):
+            res.violation("solve:wrong-state:stab", f"stab backend (setting {det}): the circuit does not prepare the stabilizer target with emitters in |0>", input=inp)
+    m = sum(1 for tk in toks if tk.startswith("M"))
+    if m > 0:
+        res.nontrivial(inp["x"] + inp["z"] + inp["r"], inp["target_rep"], "stab")
+    scripts = {"0" * m, "1" * m} | {"".join(ctx.rng.choice("01") for _ in range(m)) for _ in range(2)}
+    for sc in sorted(scripts):
+        pending.append((f"circ.stab ne={ne} np={np_} nc={nc} det=p script={sc or '-'} ops={inp['ops'] or '-'}", dict(inp, _kind="stab-run", _want=want, script=sc)))
+    pending.append((model_cmd, dict(inp, _kind="model", _toks=toks)))
+
+
 def _dense_target(adj, ne):
     n = adj.shape[0]
     m = n + ne
@@ -207,6 +355,20 @@ def per_wire(toks):
 
 def flush(res, drv, pending):
     for rep, (ln, inp) in zip(drv.batch([p[0] for p in pending]), pending):
+        if inp.get("_kind") == "model-raises":
+            clean = {k: v for k, v in inp.items() if not k.startswith("_")}
+            if rep["_status"] == "ok" or rep["_raw"].split()[1:2] != [inp["_cls"]]:
+                res.exact_break("solver.trs:error-class", input=clean, impl=inp["_cls"], model=rep["_raw"][:200])
+            continue
+        if inp.get("_kind") == "stab-run":
+            clean = {k: v for k, v in inp.items() if not k.startswith("_")}
+            if rep["_status"] != "ok" or rep.get("valid") != "1" or tu.canon_from_reply(rep) != inp["_want"]:
+                res.violation("solve:stab-target:wrong-state-under-verified-semantics",
+                              "run by the verified tableau semantics under this outcome script the returned circuit does not prepare the stabilizer target with emitters in |0>",
+                              input=clean, model=rep["_raw"][:300])
+            else:
+                res.traces_validated += 1
+            continue
         if inp.get("_kind") == "model":
             clean = {k: v for k, v in inp.items() if not k.startswith("_")}
             if rep["_status"] != "ok":
@@ -297,6 +459,12 @@ def run(ctx, budget=1.0):
             flush(res, drv, pending)
     res.extra["light_targets"] = n_light
     guided_targets(ctx, res, drv, SC, DC, pending, int((900 if ctx.quick else 12000) * budget))
+    # stabilizer targets handed over as tableaux (not graphs): local-Clifford images of graph states with random signs, random Clifford states
+    for _ in range(int((150 if ctx.quick else 3000) * budget)):
+        check_stab_target(ctx, res, drv, SC, pending)
+        if len(pending) > 40:
+            flush(res, drv, pending)
+    flush(res, drv, pending)
     helper_correspondence(ctx, res, drv, int((80 if ctx.quick else 1500) * budget))
     solver_helper_correspondence(ctx, res, drv, SC, int((600 if ctx.quick else 10000) * budget))
     if not ctx.quick:
@@ -582,6 +750,14 @@ def search(ctx, res, proof_broken):
     n_try = 0
     # first the sparse block-structured targets chosen with the model's branch tags (the sign-sensitive branches of the two solver helpers)
     guided_targets(ctx, res, drv, SC, DC, pending, 4000 if ctx.quick else 20000)
+    # then stabilizer targets that are not graph states (absorption branches with photon Pauli Y / Z)
+    for _ in range(600 if ctx.quick else 3000):
+        if res.violations:
+            break
+        check_stab_target(ctx, res, drv, SC, pending)
+        if len(pending) > 40:
+            flush(res, drv, pending)
+    flush(res, drv, pending)
     while time.time() - t0 < (240 if ctx.quick else 1200) and not res.violations:
         n = ctx.rng.randrange(6, 10)
         g = nx.gnp_random_graph(n, ctx.rng.uniform(0.35, 0.8), seed=ctx.rng.getrandbits(30))
@@ -600,6 +776,23 @@ def search(ctx, res, proof_broken):
 def replay(ctx, data):
     v = data.get("violation") or {}
     inp = v.get("input") or {}
+    if "tab" in inp:
+        # a stabilizer target handed over as a tableau: rebuild exactly the CliffordTableau of the failing run
+        from graphiq.backends.stabilizer.clifford_tableau import CliffordTableau
+
+        n = int(inp["n"])
+        t = CliffordTableau(tu.unbits(inp["tab"]["table"], (2 * n, 2 * n)), phase=tu.unbits(inp["tab"]["phase"], (2 * n,)))
+        t.iphase = tu.unbits(inp["tab"]["iphase"], (2 * n,))
+        res = Result()
+        drv = Driver()
+        SC, DC = make_compilers()
+        pending = []
+        check_stab_target(ctx, res, drv, SC, pending, given=(str(inp.get("target_rep", "tableau:replay")).split(":", 1)[-1], t))
+        flush(res, drv, pending)
+        drv.close()
+        for x in res.violations:
+            print(x["key"], x["clause"])
+        return not res.violations
     if "adjacency" not in inp:
         return None
     n = int(inp["n"])
